@@ -402,6 +402,10 @@ def install_dates(I, cls):
         elif shape in ("F4-WF2", "F4-WF2-F1"):
             cy, w = vals[0], vals[1]
             wd = vals[2] if len(vals) == 3 else z3.IntVal(1)
+            if not ctx.branch(z3.And(w >= 1, w <= 53, wd >= 1, wd <= 7)):
+                # pendulum is lenient here (week 00 is the week before week 01, day 0 the day before Monday): outside the
+                # assumed contract; the period grammar's own pattern refuses such texts before pendulum sees them
+                raise Unsupported("pendulum.parse of an ISO week text with week outside 01..53 or day outside 1..7")
             jan1 = cal.OM(12 * cy)
             jan4 = jan1 + 3
             monday1 = jan4 - cal.weekday0(jan4)
@@ -468,6 +472,9 @@ def iso_calendar(I, ctx, self):
     ctx.assume(z3.And(jan1 <= th, th < cal.OM(12 * iy + 12)))
     ctx.assume(wk == (th - jan1) / 7 + 1)
     ctx.assume(z3.And(iy >= y - 1, iy <= y + 1, wk >= 1, wk <= 53))
+    # instances of the monotonicity of OM (lemma library): a Thursday within the years 1000..9999 has its ISO year there
+    ctx.assume(z3.Implies(th >= cal.OM(12 * 1000), iy >= 1000))
+    ctx.assume(z3.Implies(th < cal.OM(12 * 10000), iy <= 9999))
     return TupleVal([B.wrap(iy), B.wrap(wk), B.wrap(wd0 + 1)])
 
 
